@@ -9,7 +9,7 @@ from pyvaporation.optimizer import PervaporationFunction
 from pyvaporation.pervaporation import Pervaporation
 
 from gen import Case, emit_family
-from objs import V, all_vars, sym_mixture, sym_composition, act_text, Reifier, app, sym_permeance, ctype_text, units_text
+from objs import V, all_vars, sym_mixture, sym_composition, act_text, Reifier, app, sym_permeance, ctype_text, units_text, fresh_str
 from sym import TraceEscape, Sym
 from fam_solver import make_solve_stub, make_perm_stub, patch_attr, PERM_MODEL, MODES, mode_vals, mode_text
 
@@ -21,7 +21,7 @@ def sym_program(kind, ncoef):
     coefs = [V('pc%d' % i, [300.0, 2.0, -0.5, 0.1][i]) for i in range(ncoef)]
     if kind == 'logarithmic':
         coefs = [V('pc%d' % i, [100.0, 20.0, 1.5, 0.1][i]) for i in range(ncoef)]
-    tp = TemperatureProgram(coefficients=coefs, type=kind)
+    tp = TemperatureProgram(coefficients=coefs, type=fresh_str(kind))
     txt = '(Some (Build_TProg N [%s] %s))' % ('; '.join('pc%d' % i for i in range(ncoef)),
                                              {'polynomial': 'Poly', 'exponential': 'Expo', 'logarithmic': 'Loga'}.get(kind, 'OtherProg'))
     return tp, txt
@@ -93,13 +93,14 @@ def fit_text(em, f):
                                                   '; '.join(em.ref(x) for x in f.b))
 
 
-def sym_curve_set(m, ncurves, sameT=False, xb='weight'):
+def sym_curve_set(m, ncurves, sameT=False, xb='weight', eqT=False):
     curves = []
     for c in range(ncurves):
-        Tc = V('T0', 333.15) if (sameT and c == 0) else V('Tc%d' % c, 313.15 + 20 * c)
+        # eqT: distinct temperature leaves whose shadow values coincide (several curves measured at one temperature)
+        Tc = V('T0', 333.15) if (sameT and c == 0) else V('Tc%d' % c, 313.15 + (0 if eqT else 20 * c))
         comps = []
         for j in range(2):
-            cc = pv.Composition(p=0.5, type=(xb if xb != 'mixed' else ('weight', 'molar')[j % 2]))   # 'mixed': every point its own basis
+            cc = pv.Composition(p=0.5, type=fresh_str(xb if xb != 'mixed' else ('weight', 'molar')[j % 2]))   # 'mixed': every point its own basis
             cc.p = V('cx%d_%d' % (c, j), 0.2 + 0.3 * j)
             comps.append(cc)
         perms = [(sym_permeance('cp%d_%d_1' % (c, j), 0.03 + 0.01 * j)[0], sym_permeance('cp%d_%d_2' % (c, j), 0.0004)[0]) for j in range(2)]
@@ -238,21 +239,25 @@ def cases():
                         if not (curves == 'single_same' and not ip):
                             continue
                     ni_cfgs.append((iso, curves, ip, xb))
-    ni_cfgs = [c + (None,) for c in ni_cfgs] + [(False, 'multi', False, 'weight', ('exponential', 2)), (False, 'multi', False, 'weight', ('logarithmic', 2)),
+    ni_cfgs = [c + (None,) for c in ni_cfgs] + [(True, 'multi_eq', False, 'weight', None), (False, 'multi_eq', False, 'weight', None)] + [(False, 'multi', False, 'weight', ('exponential', 2)), (False, 'multi', False, 'weight', ('logarithmic', 2)),
                                                  (False, 'single_other', False, 'weight', ('polynomial', 2))]
     for iso, curves, ip, xb, prog in ni_cfgs:
+        eq_t = curves == 'multi_eq'          # two curves at one (shadow) temperature: still the multi-curve branch
+        curves = 'multi' if eq_t else curves
         for n in ns:
+            if eq_t and n != 1:
+                continue
             if n == 3 and (iso, curves, ip, xb, prog) not in N3_NONIDEAL:
                 continue
             mode = 'temp' if (iso and curves == 'multi') else 'vac'
             log = []
 
-            def run(iso=iso, curves=curves, ip=ip, xb=xb, n=n, mode=mode, log=log, prog=prog):
+            def run(iso=iso, curves=curves, ip=ip, xb=xb, n=n, mode=mode, log=log, prog=prog, eq_t=eq_t):
                 del log[:]
                 m, _ = sym_mixture()
                 p = Pervaporation(pv.Membrane(name='symmem'), m)
                 cd, _ = sym_conditions(mode, xb, prog)
-                cset = sym_curve_set(m, 2 if curves == 'multi' else 1, sameT=(curves == 'single_same'), xb=xb)
+                cset = sym_curve_set(m, 2 if curves == 'multi' else 1, sameT=(curves == 'single_same'), xb=xb, eqT=eq_t)
                 ipv = (sym_permeance('ip1', 0.06, 'SI')[0], sym_permeance('ip2', 0.0007, 'GPU')[0]) if ip else None
                 with patch_attr(Pervaporation, 'calculate_partial_fluxes', make_solve_stub(shadowJ)), \
                         patch_attr(PVM, 'find_best_fit', make_fbf_stub(log)), \
@@ -283,7 +288,7 @@ def cases():
                 if log != want:
                     raise TraceEscape('find_best_fit was requested with %r, the model expects %r' % (log, want))
                 return '(%s, (%s, %s))' % (rows_text(em, pm, n), fit_text(em, pm.permeance_fits[0]), fit_text(em, pm.permeance_fits[1]))
-            cs.append(Case('nonideal_%s_%s_%s_%s%s_n%d' % ('iso' if iso else 'noniso', curves, 'ip' if ip else 'noip', xb[0], '' if prog is None else '_' + prog[0][:4], n),
+            cs.append(Case('nonideal_%s_%s_%s_%s%s_n%d' % ('iso' if iso else 'noniso', curves + ('eqT' if eq_t else ''), 'ip' if ip else 'noip', xb[0], '' if prog is None else '_' + prog[0][:4], n),
                            call, run, result,
                            binders='(Jf : SolveArgs N -> num N * num N) (EaV : nat -> num N)', tactic='bridge_process'))
     return cs
